@@ -309,5 +309,13 @@ def replay(rec, chk):
     BlockProbe, LibProbe = make_probes(bib)
     got = run_cfg(bib, rec["input"]["cfg"], BlockProbe, LibProbe)
     exp = rec["expected"]
-    ok = got == exp or (got.get("err") is False and (got.get("e") == exp or (got.get("e") == exp.get("e") and got.get("into") == exp.get("into", 0)) or got.get("text") == exp.get("text") or got.get("bs") == exp.get("bs")))
+    side = rec["input"]["cfg"]["side"]
+    if got.get("err") is not False or exp.get("err") is True:
+        ok = got.get("err") == exp.get("err", False) and exp.get("err") is True
+    elif side == "parse":
+        ok = (got["e"] == exp["e"] and got["into"] == exp["into"]) if "into" in exp else got["e"] == exp
+    elif side == "write":
+        ok = got["text"] == exp["text"]
+    else:
+        ok = got["bs"] == list(exp["bs"])
     return got, exp, ok
